@@ -274,6 +274,24 @@ def run(ctx):
     if len(fp) != 1:
         r.violate("CStreamingHandler::drop|callback", "CStreamingHandler's Drop does not call drop_callback exactly once", ch.loc())
 
+    # ------------------------------------------------------------------ R17.6
+    r = ctx.rule("R17.6", "handler closures outlive the builder: the closures the C API hands to the Rust rewriter (as_safe_*_content_handlers, lol_html_element_add_end_tag_handler) capture the C callback and the user_data pointer by value only — never a reference or pointer into the builder's handler storage, which lol_html.h allows to be freed before the rewriter runs", "E-MIR closure captures", floor=7)
+    for f in capi.fns:
+        if capi.is_test_fn(f) or not re.search(r"as_safe_\w+_content_handlers$|lol_html_element_add_end_tag_handler$", f.key):
+            continue
+        for b in f.blocks:
+            for st in b["stmts"]:
+                if st["k"] == "assign" and st["rv"]["k"] == "agg" and st["rv"].get("what") == "closure":
+                    caps = []
+                    for o in st["rv"]["ops"]:
+                        if o["k"] in ("copy", "move"):
+                            caps.append(f.rec["locals"][o["p"]["local"]])
+                    key = f.key + "|" + st["rv"]["name"].split("::")[-1] + "|" + (caps[0].split("html_content::")[-1].split("<")[0] if caps else "")
+                    r.inst(key, sample={"fn": f.key, "captures": [c[:60] for c in caps]})
+                    bad = [c for c in caps if c.startswith("&") or re.search(r"Extern\w+ContentHandlers|HtmlRewriterBuilder", c)]
+                    if bad or not any("*mut libc::c_void" == c for c in caps):
+                        r.violate(key, f"{f.key}: a handler closure captures {[c[:70] for c in (bad or caps)]} instead of the callback and a copy of the user_data pointer: once the builder (or the handlers object) is freed, which the header permits before the rewriter runs, the handler reads freed memory", f.loc())
+
     ctx.not_decided += ["byte-for-byte equality of C-driven and Rust-driven runs (a run-time relation)", "allocator hygiene over all create/use/free histories (sanitizer territory)"]
     return ("Wrapper discipline of the C API: %d header prototypes compared with the exported extern \"C\" signatures (arity and type class) and the repr(C) struct "
             "layouts, namesake routing of %d accessor/mutator wrappers, catch_panic containment, Err-edge to save_last_error reachability, and ownership pairing." % (len(hdr["funcs"]), len(ext)))
